@@ -336,7 +336,7 @@ func (x *Exec) addEdge(fr *frame, from, to *ssa.BasicBlock, st *State, cond Term
 	// an edge that leaves a loop from inside its body (not from the loop head): "loop N break" clauses
 	if fr.contract != nil {
 		for _, li := range fr.loops {
-			if li.body[from] && !li.body[to] && from != li.header {
+			if li.body[from] && !li.body[to] && from != li.header && !leadsToReturn(to, 0) {
 				if lc := fr.contract.Loops[li.ordinal]; lc != nil && len(lc.Breaks) > 0 {
 					bst := st.Clone()
 					bst.Reach = cond
@@ -1877,4 +1877,20 @@ func (x *Exec) atReturn(fr *frame, s *State, rv []Value, pos token.Pos) {
 		x.obligeKnown(env, fmt.Sprintf("%s#atreturn%d.%d", x.C.Unit, k, x.bump(fr, fmt.Sprintf("atreturn%d", k))), "atreturn",
 			x.pos(pos), fmt.Sprintf("at this return (%s:%d): %s", filepath.Base(ac.File), ac.Line, ac.Text), s.Reach, prop)
 	}
+}
+
+// leadsToReturn: the block (following unconditional jumps) ends in a return: such an edge
+// out of a loop is a return statement, not a break.
+func leadsToReturn(b *ssa.BasicBlock, depth int) bool {
+	if depth > 4 || len(b.Instrs) == 0 {
+		return false
+	}
+	switch last := b.Instrs[len(b.Instrs)-1].(type) {
+	case *ssa.Return:
+		return true
+	case *ssa.Jump:
+		_ = last
+		return leadsToReturn(b.Succs[0], depth+1)
+	}
+	return false
 }
